@@ -58,12 +58,22 @@ class Rule:
                 doc["examples"] = []
 
             # strip final new lines:
-            for idx, desc_i in enumerate(doc["description"]):
-                doc["description"][idx] = desc_i.strip()
-            for idx, ex_i in enumerate(doc["examples"]):
-                doc["examples"][idx] = ex_i.strip()
+            for key in ("description", "examples"):
+                if not isinstance(doc[key], list) or not all(
+                    isinstance(i, str) for i in doc[key]
+                ):
+                    raise MalformedRuleSpec(
+                        f"Rule doc {key!r} must be a string or a list of strings, but "
+                        f"found: {doc[key]!r}."
+                    )
+                doc[key] = [i.strip() for i in doc[key]]
 
         cast = copy.copy(spec.get("cast"))  # re-keyed below; not the caller's object
+        if cast is not None and not isinstance(cast, dict):
+            raise MalformedRuleSpec(
+                f"Rule cast must be a mapping from type name to type name, but found: "
+                f"{cast!r}."
+            )
         for cast_from in list((cast or {}).keys()):
             cast_to = cast.pop(cast_from)
             try:
